@@ -188,7 +188,76 @@ def _locator(db, outer_q):
             for s in walk_func(outer):
                 if isinstance(s, ast.FunctionDef) and s.name == c.args[0].id and s is not outer:
                     return s
+            # ... or a function of the module (a locator that needs no state of its own)
+            for s in db.mod(outer_q.split(".")[0]).tree.body:
+                if isinstance(s, ast.FunctionDef) and s.name == c.args[0].id:
+                    return s
     raise AnalysisError("%s: the function handed to _show_warnings_as was not found" % outer_q)
+
+
+def _full_line_map_names(db, fns):
+    """{(function, local name)} of the locals that hold a module's full_line_map list, followed through tuple packing /
+    unpacking, per-file caches (`cache[k] = (a, b)` ... `a, b = cache[k]`) and the return values of split-off helpers"""
+    F = set()
+
+    def has_full(e):
+        return any(isinstance(x, ast.Subscript) and const(x.slice) == "full_line_map" for x in ast.walk(e))
+
+    def elts(f, e):
+        """per position: is this element of a tuple-valued expression a full line map"""
+        if isinstance(e, ast.Tuple):
+            return [has_full(x) or (isinstance(x, ast.Name) and (f, x.id) in F) for x in e.elts]
+        if isinstance(e, ast.Name):
+            # a local holding a tuple
+            for s in ast.walk(f):
+                if isinstance(s, ast.Assign) and len(s.targets) == 1 and isinstance(s.targets[0], ast.Name) and s.targets[0].id == e.id:
+                    r = elts(f, s.value)
+                    if r:
+                        return r
+        if isinstance(e, ast.Call):
+            for h in fns:
+                nm = c_name(e)
+                if nm == h.name and h is not f:
+                    for r in ast.walk(h):
+                        if isinstance(r, ast.Return) and r.value is not None:
+                            x = elts(h, r.value)
+                            if x:
+                                return x
+        if isinstance(e, ast.Subscript):
+            # cache[k]: what was stored under the same container
+            for s in ast.walk(f):
+                if isinstance(s, ast.Assign) and isinstance(s.targets[0], ast.Subscript) and src(s.targets[0].value) == src(e.value):
+                    x = elts(f, s.value)
+                    if x:
+                        return x
+        return None
+
+    def c_name(c):
+        return c.func.id if isinstance(c.func, ast.Name) else c.func.attr if isinstance(c.func, ast.Attribute) else None
+    for _round in range(4):
+        before = len(F)
+        for f in fns:
+            scope = [f] + [a for a in ancestors(f) if isinstance(a, ast.FunctionDef)]
+            for sc in scope:
+                for s in ast.walk(sc):
+                    if not isinstance(s, ast.Assign):
+                        continue
+                    for t in s.targets:
+                        if isinstance(t, ast.Name) and (has_full(s.value) or (isinstance(s.value, ast.Name) and (f, s.value.id) in F)):
+                            F.add((f, t.id))
+                        if isinstance(t, ast.Name) and isinstance(s.value, ast.Call):
+                            for h in fns:
+                                if c_name(s.value) == h.name and h is not f and any(isinstance(r, ast.Return) and r.value is not None and (has_full(r.value) or (isinstance(r.value, ast.Name) and (h, r.value.id) in F)) and not isinstance(r.value, ast.Tuple) for r in ast.walk(h)):
+                                    F.add((f, t.id))
+                        if isinstance(t, ast.Tuple):
+                            fl = elts(f, s.value)
+                            if fl and len(fl) == len(t.elts):
+                                for x, is_full in zip(t.elts, fl):
+                                    if is_full and isinstance(x, ast.Name):
+                                        F.add((f, x.id))
+        if len(F) == before:
+            break
+    return F
 
 
 @rule("C12.metadata", min_instances=7)
@@ -243,19 +312,19 @@ def metadata(ctx):
     readers = []
     for q in ("exceptions.RichTraceback._init", "template._translate_module_warnings._locate"):
         fn = db.func(q) if q.startswith("exceptions") else _locator(db, "template._translate_module_warnings")
-        scope = [fn] + [a for a in ancestors(fn) if isinstance(a, ast.FunctionDef)]
-        full = {t_.id for sc_ in scope for s_ in ast.walk(sc_) if isinstance(s_, ast.Assign) and any(isinstance(x_, ast.Subscript) and const(x_.slice) == "full_line_map" for x_ in ast.walk(s_.value))
-                for t_ in s_.targets if isinstance(t_, ast.Name)}
-        for n in walk_func(fn):
-            if isinstance(n, ast.Subscript) and isinstance(n.ctx, ast.Load) and isinstance(n.value, ast.Name) and n.value.id in full and not isinstance(n.slice, ast.Constant):
-                readers.append((q, n))
+        fns_ = db.with_helpers(fn)
+        full = _full_line_map_names(db, fns_)
+        for f_ in fns_:
+            for n in walk_func(f_):
+                if isinstance(n, ast.Subscript) and isinstance(n.ctx, ast.Load) and isinstance(n.value, ast.Name) and (f_, n.value.id) in full and not isinstance(n.slice, (ast.Constant, ast.Slice)):
+                    readers.append((q, n))
     ctx.require(len(readers) >= 2, "full_line_map readers not found (%d)" % len(readers))
     for q, n in readers:
         ok = isinstance(n.slice, ast.BinOp) and isinstance(n.slice.op, ast.Sub) and isinstance(n.slice.left, ast.Name) and const(n.slice.right) == base
         ctx.check(ok, "reader.index:" + q, db.where(n), "%s indexes full_line_map with `%s` but the list starts at module line %s: every frame is mapped to a neighbouring line" % (q, src(n.slice), base), "index lineno - %s" % base)
     for q in ("exceptions.RichTraceback._init", "template._translate_module_warnings._locate"):
         fn = db.func(q) if q.startswith("exceptions") else _locator(db, "template._translate_module_warnings")
-        ctx.check("full_line_map=True" in src(fn) or "full_line_map" in src(fn), "reader.full:" + q, db.where(fn), "%s does not request the full line map" % q, "requests full_line_map")
+        ctx.check(any("full_line_map" in src(f_) for f_ in db.with_helpers(fn)), "reader.full:" + q, db.where(fn), "%s does not request the full line map" % q, "requests full_line_map")
 
 
 @rule("C12.warning-regions", min_instances=8)
@@ -329,8 +398,9 @@ def line_split_agreement(ctx):
     mr = db.func("lexer.Lexer.match_reg")
     ctx.check("count('\\n')" in src(mr), "lexer-counts-newlines", db.where(mr), "the lexer no longer counts lines by '\\n'", "lexer counts \\n")
     ri = db.func("exceptions.RichTraceback._init")
-    bad = [c for c in ast.walk(ri) if isinstance(c, ast.Call) and isinstance(c.func, ast.Attribute) and c.func.attr == "splitlines"]
-    good = [c for c in ast.walk(ri) if isinstance(c, ast.Call) and isinstance(c.func, ast.Attribute) and c.func.attr == "split" and c.args and const(c.args[0]) == "\n" and "template_source" in src(c.func.value)]
+    ris = db.with_helpers(ri)
+    bad = [c for f_ in ris for c in ast.walk(f_) if isinstance(c, ast.Call) and isinstance(c.func, ast.Attribute) and c.func.attr == "splitlines"]
+    good = [c for f_ in ris for c in ast.walk(f_) if isinstance(c, ast.Call) and isinstance(c.func, ast.Attribute) and c.func.attr == "split" and c.args and const(c.args[0]) == "\n" and "template_source" in src(c.func.value)]
     if bad:
         ctx.violation("RichTraceback.split", db.where(bad[0]), "RichTraceback splits the template source with splitlines(): a template containing a form feed, U+2028 or a lone CR above the fault shows the text of a different line for every template frame")
     else:
